@@ -5,7 +5,7 @@ import "github.com/RoaringBitmap/roaring/v2"
 func init() {
 	register(&Property{
 		ID: "C09", Level: "exploration", Builds: []string{"plain"},
-		Rule:        "cases = population histories (the union of the C02, C01, C07, C11 operation alphabets plus AddOffset64, static Flip, RunOptimize) starting from empty/generated bitmaps; after EVERY step EVERY live bitmap must pass Validate() and an independent invariant walk over the raw containers (parallel slices, strictly increasing keys, no empty chunk, cached cardinality == popcount, array <= 4096 sorted, bitmap > 4096 and 1024 words, runs sorted / disjoint / non-adjacent / within 0..65535); every 8th step one live bitmap is round-tripped through the portable and the frozen format and validated again. Second unit: single-bitmap mutation histories biased to fragment run chunks. Non-trivial: >= 1 run or bitmap chunk observed; distinct = hash of the step list.",
+		Rule:        "cases = population histories (the union of the C02, C01, C07, C11 operation alphabets plus AddOffset64, static Flip, RunOptimize) starting from empty/generated bitmaps; after EVERY step EVERY live bitmap must pass Validate() and an independent invariant walk over the raw containers (parallel slices, strictly increasing keys, no empty chunk, cached cardinality == popcount, array <= 4096 sorted, bitmap > 4096 and 1024 words, runs sorted / disjoint / non-adjacent / within 0..65535); every 8th step one live bitmap is round-tripped through the portable and the frozen format and validated again. Second unit: single-bitmap mutation histories biased to fragment run chunks. Non-trivial: >= 1 run or bitmap chunk observed; distinct = hash of the step list. Added units: threshold-cardinality-targets (results with exactly 4095/4096/4097/65535/65536/2^k values through static, in-place and copy-on-write forms, then point updates across the threshold) and many-way aggregates whose result chunks sit on such thresholds.",
 		Assumptions: []string{"Validate()'s run-efficiency rule is part of the property (first sentence of the statement)"},
 		Units: []Unit{
 			{Name: "population", Quick: 1500, Thorough: 80000, Run: c09Pop},
